@@ -21,7 +21,8 @@ REGISTRY = {
             'weighted mean = average mass + delta + particles (abundances sum to 1 for C,H,N,O,S,P,Se,Cl,Br,Fe by decide over the generated '
             'NIST table), lightest peak = monoisotopic mass + delta + particles for C,H,N,O,S,P; conv_comm, conv_assoc, conv_pushforward / '
             'neutron_view_is_binned_pattern (neutron-offset view and mass view are marginals of one joint pattern), merge_adds, '
-            'nfold_conv_eq_multinomial (general, by induction), no_error_after_element_loop. The model is tied to /repo by differential '
+            'nfold_conv_eq_multinomial (general, by induction), no_error_after_element_loop; pruning options without tolerance: pruned_is_sublist '
+            '(thresholded output = sub-list of the un-thresholded one up to one common factor), max_isotopes_takes_top_k. The model is tied to /repo by differential '
             'correspondence (isotopic_distribution, estimate_isotopic_distribution, _calculate_elemental_distribution, _convolve_distributions, '
             'merge_isotopic_distributions, round) and every clause of the property is evaluated on the real code; the exact multinomial '
             'comparison for <= 12 atoms is a TEST (exact rationals: model vs independent Fraction reference, string equal; code vs reference '
